@@ -7,6 +7,10 @@ CONSTANTS
   FailInner <- FailQ4
   WithNoResult = TRUE
   WithExtract = TRUE
+  MaxPause = 0
+  MaxChain = 0
+  InnerValues <- NoInner
+  InnerExcs <- NoInner
   MaxLen = 4
 CONSTRAINT ExportC
 INVARIANT Trichotomy
